@@ -162,6 +162,15 @@ PPL::Grid::limited_congruence_extrapolation_assign(const Grid& y,
                                                    unsigned* tp) {
   Grid& x = *this;
 
+  // `cgs' may be (a reference to) the congruence system of `*this' or
+  // of `y' (e.g., as returned by congruences()): these systems can be
+  // modified (minimized) below.  Work on a copy in that case.
+  if (&cgs == &x.con_sys || &cgs == &y.con_sys) {
+    const Congruence_System cgs_copy(cgs);
+    x.limited_congruence_extrapolation_assign(y, cgs_copy, tp);
+    return;
+  }
+
   // Check dimension compatibility.
   if (x.space_dim != y.space_dim) {
     throw_dimension_incompatible("limited_extrapolation_assign(y, cgs)",
@@ -371,6 +380,15 @@ PPL::Grid::limited_generator_extrapolation_assign(const Grid& y,
                                                   unsigned* tp) {
   Grid& x = *this;
 
+  // `cgs' may be (a reference to) the congruence system of `*this' or
+  // of `y' (e.g., as returned by congruences()): these systems can be
+  // modified (minimized) below.  Work on a copy in that case.
+  if (&cgs == &x.con_sys || &cgs == &y.con_sys) {
+    const Congruence_System cgs_copy(cgs);
+    x.limited_generator_extrapolation_assign(y, cgs_copy, tp);
+    return;
+  }
+
   // Check dimension compatibility.
   if (x.space_dim != y.space_dim) {
     throw_dimension_incompatible("limited_extrapolation_assign(y, cgs)",
@@ -471,6 +489,15 @@ PPL::Grid::limited_extrapolation_assign(const Grid& y,
                                         const Congruence_System& cgs,
                                         unsigned* tp) {
   Grid& x = *this;
+
+  // `cgs' may be (a reference to) the congruence system of `*this' or
+  // of `y' (e.g., as returned by congruences()): these systems can be
+  // modified (minimized) below.  Work on a copy in that case.
+  if (&cgs == &x.con_sys || &cgs == &y.con_sys) {
+    const Congruence_System cgs_copy(cgs);
+    x.limited_extrapolation_assign(y, cgs_copy, tp);
+    return;
+  }
 
   // Check dimension compatibility.
   if (x.space_dim != y.space_dim) {
